@@ -907,15 +907,16 @@ func (mb *Metablock) Sigs() []Signature {
 }
 
 /*
-VerifySignature verifies the first signature, corresponding to the passed Key,
-that it finds in the Signatures field of the Metablock on which it was called.
+VerifySignature verifies the signatures, corresponding to the passed Key, that
+it finds in the Signatures field of the Metablock on which it was called and
+succeeds if one of them is valid: metadata that was changed and signed again
+with the same key carries an outdated signature next to the current one.
 It returns an error if Signatures does not contain a Signature corresponding to
-the passed Key, the object in Signed cannot be canonicalized, or the Signature
-is invalid.
+the passed Key, the object in Signed cannot be canonicalized, or none of the
+key's signatures is valid.
 */
 func (mb *Metablock) VerifySignature(key Key) error {
-	sig, err := mb.GetSignatureForKeyID(key.KeyID)
-	if err != nil {
+	if _, err := mb.GetSignatureForKeyID(key.KeyID); err != nil {
 		return err
 	}
 
@@ -929,17 +930,24 @@ func (mb *Metablock) VerifySignature(key Key) error {
 		return err
 	}
 
-	sigBytes, err := hex.DecodeString(sig.Sig)
-	if err != nil {
-		return err
+	for _, sig := range mb.Signatures {
+		if sig.KeyID != key.KeyID {
+			continue
+		}
+
+		var sigBytes []byte
+		sigBytes, err = hex.DecodeString(sig.Sig)
+		if err != nil {
+			continue
+		}
+
+		err = verifier.Verify(context.Background(), payload, sigBytes)
+		if err == nil {
+			return nil
+		}
 	}
 
-	err = verifier.Verify(context.Background(), payload, sigBytes)
-	if err != nil {
-		return err
-	}
-
-	return nil
+	return err
 }
 
 // GetSignatureForKeyID returns the signature that was created by the provided keyID, if it exists.
